@@ -21,6 +21,51 @@ pub struct RecInfo {
     pub blob_offset_field: u64,
     pub header_crc_ok: bool,
     pub data_crc_ok: bool,
+    /// the metadata bytes are a canonical bincode map of strings to byte vectors filling meta_len
+    pub meta_ok: bool,
+}
+
+/// bincode `HashMap<String, Vec<u8>>`: count, then (klen, utf-8 key, vlen, value) entries with
+/// distinct keys, exactly filling the buffer.
+pub fn meta_well_formed(b: &[u8]) -> bool {
+    if b.len() < 8 {
+        return false;
+    }
+    let n = u64_at(b, 0) as usize;
+    let mut o = 8usize;
+    let mut keys = std::collections::BTreeSet::new();
+    for _ in 0..n {
+        if o + 8 > b.len() {
+            return false;
+        }
+        let kl = u64_at(b, o) as usize;
+        o += 8;
+        if kl > b.len() || o + kl > b.len() {
+            return false;
+        }
+        match std::str::from_utf8(&b[o..o + kl]) {
+            Ok(k) => {
+                if !keys.insert(k.to_string()) {
+                    return false;
+                }
+            }
+            Err(_) => return false,
+        }
+        o += kl;
+        if o + 8 > b.len() {
+            return false;
+        }
+        let vl = u64_at(b, o) as usize;
+        o += 8;
+        if vl > b.len() || o + vl > b.len() {
+            return false;
+        }
+        o += vl;
+        if n > b.len() {
+            return false;
+        }
+    }
+    o == b.len()
 }
 
 impl RecInfo {
@@ -107,6 +152,7 @@ pub fn parse(bytes: &[u8], key_len: usize) -> Parsed {
         }
         let d0 = off + hl + meta_len as usize;
         let data_crc_ok = CRC32C.checksum(&bytes[d0..d0 + data_len as usize]) == data_crc;
+        let meta_ok = meta_well_formed(&bytes[off + hl..d0]);
         p.records.push(RecInfo {
             offset: off as u64,
             header_len: hl as u64,
@@ -118,6 +164,7 @@ pub fn parse(bytes: &[u8], key_len: usize) -> Parsed {
             blob_offset_field,
             header_crc_ok,
             data_crc_ok,
+            meta_ok,
         });
         off = end as usize;
     }
